@@ -298,11 +298,10 @@ namespace {
                     }
             }
         }
-        for ( auto const& kv : items )
-            if ( !kv.second.dequeued ) {
-                fail( "value " + std::to_string( kv.first ) + " was enqueued but neither dequeued nor drained (lost item): " + text());
-                return;
-            }
+        // an item that was never removed is still in the queue at the end of the history
+        for ( auto& kv : items )
+            if ( !kv.second.dequeued )
+                kv.second.dinv = kv.second.dresp = ~0ull;
         // (2) bounded reordering, conservative reading: when y is dequeued by d, the items x whose
         // enqueue completed before enq(y) began and whose removal had not even begun when d returned
         // are certainly still in the queue: there must be fewer than QF of them
@@ -336,6 +335,12 @@ namespace {
                     return;
                 }
         }
+        // (1) completeness: drained + dequeued == enqueued
+        for ( auto const& kv : items )
+            if ( !kv.second.dequeued ) {
+                fail( "value " + std::to_string( kv.first ) + " was enqueued but neither dequeued nor drained (lost item): " + text());
+                return;
+            }
     }
 
     template <typename GC, typename Adapter>
@@ -353,6 +358,7 @@ namespace {
         size_t QF = 0;
         long inflight = 0, max_inflight = 0;
         bool clear_mode = cfg_at( c, 2, 0 ) != 0;
+        std::string late_msg;
         {
             Gcs gcs;
             make_gc<GC>( gcs, c, decltype( Adapter::q )::c_nHazardPtrCount );
@@ -406,11 +412,12 @@ namespace {
                     }
                     run_threads( bodies );
                     // quiescent
+                    // (reported after the history invariants, which give the more precise diagnosis)
                     size_t sz = ad.q.size();
                     if ( sz != size_t( inflight ))
-                        fail( "size() at quiescence is " + std::to_string( sz ) + " but " + std::to_string( inflight ) + " items are in the queue: " + history_text( hist.ev, kOpNames ));
-                    if ( ad.q.empty() != ( inflight == 0 ))
-                        fail( "empty() at quiescence disagrees with the number of items in the queue" );
+                        late_msg = "size() at quiescence is " + std::to_string( sz ) + " but " + std::to_string( inflight ) + " items are in the queue";
+                    else if ( ad.q.empty() != ( inflight == 0 ))
+                        late_msg = "empty() at quiescence disagrees with the number of items in the queue";
                     if ( clear_mode ) {
                         size_t e = hist.begin( 0, H_CLEAR );
                         ad.q.clear();
@@ -430,8 +437,8 @@ namespace {
                     }
                     if ( clear_mode && drained )
                         fail( "dequeue returned an item after clear() at quiescence: " + history_text( hist.ev, kOpNames ));
-                    if ( !ad.q.empty() || ad.q.size() != 0 )
-                        fail( "queue is not empty after it was drained" );
+                    if (( !ad.q.empty() || ad.q.size() != 0 ) && late_msg.empty())
+                        late_msg = "empty()/size() say the queue is not empty after it was drained (size " + std::to_string( ad.q.size()) + ")";
                     qs = read_stat( ad.q );
                 }
             }
@@ -439,6 +446,8 @@ namespace {
         } // singletons destroyed: every retired item / segment has been disposed by now
         if ( !failed())
             check_history( hist.ev, QF, clear_mode, Adapter::intrusive, g_cleared );
+        if ( !failed() && !late_msg.empty())
+            fail( late_msg + ": " + history_text( hist.ev, kOpNames ));
         if ( !failed()) {
             for ( size_t i = 0; i < registry().recs.size(); ++i )
                 if ( registry().recs[i].disposed != 1 ) {
